@@ -113,7 +113,8 @@ macro_rules! impl_with_fallback_method {
                 (Some(month), Some(mc)) => (Some(month), Some(mc)),
                 // NOTE: the month code is derived (and the month regulated) when the fields are resolved.
                 (Some(month), None) => (Some(month), None),
-                (None, Some(mc)) => (Some(mc.to_month_integer()).map(Into::into), Some(mc)),
+                // NOTE: the ordinal month of a month code depends on the calendar and the year.
+                (None, Some(mc)) => (None, Some(mc)),
                 (None, None) => (
                     Some(fallback.month()).map(Into::into),
                     Some(fallback.month_code()),
